@@ -5,7 +5,8 @@ Monitors (post-conditions on every execution, wherever the call comes from):
   calc_fa_spectrum   -> number of bins, every bin against the direct-sum DFT oracle, frequency grid, Parseval;
   (a lazy read whose object's values changed since its spectrum was last generated is judged against the CURRENT
   values under the clauses lazy-after-mutation.*; the workload drives read -> public mutator(s) -> read histories);
-  fas2values / fas2signal -> length, real-valuedness, forward spectrum of the result equals the given bins;
+  fas2values / fas2signal -> length, real-valuedness, forward spectrum of the result equals the given bins, the
+                             spectrum array passed in is bit-for-bit unchanged (it may be an object's cached spectrum);
   im.max_fa_period   -> the reported period is that of a largest-amplitude bin.
 Relations between executions (checked by the driver on the returned values): object == array level, linearity,
 trailing zeros that keep N, round trip record -> spectrum -> inverse helper.
@@ -41,7 +42,9 @@ RULE = ('case = (record, dt, Signal|AccSignal, p2_plus, explicit n); each case r
         'butter_pass band/low/high, remove_average, remove_poly 0..3, running_average; AccSignal also '
         'remove_rolling_average velocity/acceleration, rebase_displacement, set_zero_residual_velocity None/(t0,t1)/(t0,None), '
         'set_zero_residual_displacement, set_zero_residual_displacement_and_velocity None/(t0,t1)/(t0,None), correct_me) '
-        '-> reads again under the lazy monitor; records >= 64 samples for filters and baseline corrections.')
+        '-> reads again under the lazy monitor; records >= 64 samples for filters and baseline corrections. Interaction '
+        'steps take the place of a mutator: fas2values / fas2signal(stype signal|acc) called with the very array '
+        'sig.fa_spectrum returns (default padding or after gen_fa_spectrum(p2_plus|n)), record with a clearly non-zero mean.')
 ASSUMPTIONS = ['real, finite, 1-D float64/integer record of length >= 2; dt > 0 finite (float32 records are computed in '
                'single precision by numpy and are counted, not judged)',
                'explicit n >= npts (n < npts truncates: outside "zero-padded", counted, not judged)',
@@ -64,7 +67,8 @@ MIN_EVALS = {   # about half of what a normal run reaches
               'fas2signal.real': 500, 'fas2values.spectrum==fas': 1600, 'fas2signal.spectrum==fas': 500,
               'fas2signal.type+dt': 500, 'inverse.roundtrip==x_pad-mean-nyquist': 1400,
               'max_fa_period==1/f[argmax|F|]': 1000, 'lazy-after-mutation.bins==dt*DFT(current values)': 250,
-              'lazy-after-mutation.nbins==N//2': 250, 'lazy-after-mutation.freqs==k/(N*dt)': 250},
+              'lazy-after-mutation.nbins==N//2': 250, 'lazy-after-mutation.freqs==k/(N*dt)': 250,
+              'fas2values.argument-unchanged': 1600, 'fas2signal.argument-unchanged': 500},
     'thorough': {'gen_fa_spectrum.bins==dt*DFT': 9500, 'lazy.bins==dt*DFT': 27000,
                  'generate_fa_spectrum.bins==dt*DFT': 4500, 'calc_fa_spectrum.bins==dt*DFT': 9000,
                  'gen_fa_spectrum.nbins==N//2': 9500, 'lazy.nbins==N//2': 27000,
@@ -76,7 +80,8 @@ MIN_EVALS = {   # about half of what a normal run reaches
                  'fas2signal.real': 2000, 'fas2values.spectrum==fas': 6000, 'fas2signal.spectrum==fas': 2000,
                  'fas2signal.type+dt': 2000, 'inverse.roundtrip==x_pad-mean-nyquist': 5500,
                  'max_fa_period==1/f[argmax|F|]': 4000, 'lazy-after-mutation.bins==dt*DFT(current values)': 1600,
-                 'lazy-after-mutation.nbins==N//2': 1600, 'lazy-after-mutation.freqs==k/(N*dt)': 1600}}
+                 'lazy-after-mutation.nbins==N//2': 1600, 'lazy-after-mutation.freqs==k/(N*dt)': 1600,
+                 'fas2values.argument-unchanged': 6000, 'fas2signal.argument-unchanged': 2000}}
 EXHAUSTIVE = {'quick': 'every record length 2..130 (4 records each) through every entry point; every 2^e-1, 2^e, 2^e+1, e=3..11',
               'thorough': 'every record length 2..130 (12 records each) through every entry point; every 2^e-1, 2^e, 2^e+1, e=3..12'}
 
@@ -366,23 +371,61 @@ def check_inverse(ctx, where, wit, fas, dt, s):
               None if idx is None else complex(ref[idx]), err, allowed))
 
 
+def _pre_inverse(args, kwargs):
+    """Snapshot of the spectrum argument before the helper runs (purity clause + a witness that holds the ORIGINAL)."""
+    fas = args[0] if args else kwargs.get('fas')
+    if isinstance(fas, np.ndarray):
+        return fas.copy()
+    if isinstance(fas, list):
+        return list(fas)
+    return None
+
+
+def _check_argument_unchanged(ctx, where, wit, fas, snap):
+    """The helper only reads its argument: the caller's array (possibly an object's cached spectrum) is bit-for-bit
+    the same afterwards."""
+    if snap is None:
+        ctx.observe('not judged: purity of a %s spectrum argument' % type(fas).__name__)
+        return
+    if isinstance(fas, np.ndarray):
+        same = fas.shape == snap.shape and fas.dtype == snap.dtype and fas.tobytes() == snap.tobytes()
+        diff = np.flatnonzero(np.asarray(fas).ravel() != snap.ravel())[:5].tolist() if fas.shape == snap.shape else 'shape'
+    else:
+        try:
+            same = len(fas) == len(snap) and all(u is v or u == v for u, v in zip(fas, snap))
+        except Exception:
+            same = False
+        diff = 'list'
+    _judge(ctx, same, where + '.argument-unchanged', wit,
+           lambda: '%s modified the spectrum array passed in (%s, %d bins) at indices %s: e.g. bin %s was %r, now %r'
+           % (where, getattr(fas, 'dtype', 'list'), len(snap), diff,
+              diff[0] if isinstance(diff, list) and diff else '?',
+              complex(snap[diff[0]]) if isinstance(diff, list) and diff else None,
+              complex(fas[diff[0]]) if isinstance(diff, list) and diff else None))
+
+
 def _post_fas2values(args, kwargs, result, pre):
     fas = args[0] if args else kwargs['fas']
     dt = args[1] if len(args) > 1 else kwargs['dt']
-    check_inverse(CTX, 'fas2values', lambda: {'fn': 'fas2values', 'fas': np.asarray(fas), 'dt': dt}, fas, dt, result)
+    given = pre if pre is not None else fas                 # the spectrum as it was when the call was made
+    wit = lambda: {'fn': 'fas2values', 'fas': np.asarray(given), 'dt': dt}
+    _check_argument_unchanged(CTX, 'fas2values', wit, fas, pre)
+    check_inverse(CTX, 'fas2values', wit, given, dt, result)
 
 
 def _post_fas2signal(args, kwargs, result, pre):
     fas = args[0] if args else kwargs['fas']
     dt = args[1] if len(args) > 1 else kwargs['dt']
     stype = args[2] if len(args) > 2 else kwargs.get('stype', 'signal')
-    wit = lambda: {'fn': 'fas2signal', 'fas': np.asarray(fas), 'dt': dt, 'stype': stype}
+    given = pre if pre is not None else fas
+    wit = lambda: {'fn': 'fas2signal', 'fas': np.asarray(given), 'dt': dt, 'stype': stype}
+    _check_argument_unchanged(CTX, 'fas2signal', wit, fas, pre)
     want = 'Signal' if stype == 'signal' else 'AccSignal'
     ok_t = type(result).__name__ == want and getattr(result, 'dt', None) == dt
     _judge(CTX, ok_t, 'fas2signal.type+dt', wit, 'fas2signal(stype=%r, dt=%r) returned %s with dt=%r'
            % (stype, dt, type(result).__name__, getattr(result, 'dt', None)))
     if hasattr(result, 'values'):
-        check_inverse(CTX, 'fas2signal', wit, fas, dt, result.values)
+        check_inverse(CTX, 'fas2signal', wit, given, dt, result.values)
 
 
 def _post_max_fa_period(args, kwargs, result, pre):
@@ -427,8 +470,8 @@ def install(ctx):
     attach.wrap_property(eqsig.Signal, 'fa_freqs', lambda o, v, st: _post_lazy(o, v, st, 'fa_freqs'), pre=_pre_lazy)
     attach.wrap(fq, 'generate_fa_spectrum', _post_generate)
     attach.wrap(fq, 'calc_fa_spectrum', _post_calc)
-    attach.wrap(fq, 'fas2values', _post_fas2values)
-    attach.wrap(fq, 'fas2signal', _post_fas2signal)
+    attach.wrap(fq, 'fas2values', _post_fas2values, pre=_pre_inverse)
+    attach.wrap(fq, 'fas2signal', _post_fas2signal, pre=_pre_inverse)
     attach.wrap(eqsig.im, 'max_fa_period', _post_max_fa_period)
     install.done = True
 
@@ -584,13 +627,18 @@ ACC_MUTATORS = ['remove_rolling_average/velocity', 'remove_rolling_average/accel
                 'set_zero_residual_displacement', 'set_zero_residual_displacement_and_velocity/None',
                 'set_zero_residual_displacement_and_velocity/t0,t1', 'set_zero_residual_displacement_and_velocity/t0,None',
                 'correct_me']
+INVERSE_STEPS = ['inverse/fas2values', 'inverse/fas2signal-signal', 'inverse/fas2signal-acc']   # not mutators: the object's
+# own spectrum array is handed to the inverse helper, then read again (it must still be dt*DFT of the values)
 LONG_ONLY = set(ACC_MUTATORS) | {'butter_pass/band', 'butter_pass/low', 'butter_pass/high'}    # need >= 64 samples
-HISTORY_COMBOS = [('Signal', k) for k in SIGNAL_MUTATORS] + [('AccSignal', k) for k in SIGNAL_MUTATORS + ACC_MUTATORS]
+HISTORY_COMBOS = [('Signal', k) for k in SIGNAL_MUTATORS + INVERSE_STEPS] + \
+    [('AccSignal', k) for k in SIGNAL_MUTATORS + ACC_MUTATORS + INVERSE_STEPS]
 
 
 def _draw_mutator(rng, kind, npts, dt):
     """One JSON-able mutator call [method, args...] of the given kind for an object holding npts samples."""
     name, _, var = kind.partition('/')
+    if name == 'inverse':
+        return ['fas2values'] if var == 'fas2values' else ['fas2signal', var.split('-')[1]]
     if name == 'reset_values':
         if var == 'same':
             m = npts
@@ -635,9 +683,13 @@ def _draw_mutator(rng, kind, npts, dt):
     return [name]          # rebase_displacement, set_zero_residual_displacement, correct_me
 
 
-def _apply_mutator(s, m):
+def _apply_mutator(eqsig, s, m):
     name = m[0]
-    if name == 'reset_values':
+    if name == 'fas2values':                  # interaction: the very array the property returns goes to the helper
+        eqsig.fas2values(s.fa_spectrum, s.dt)
+    elif name == 'fas2signal':
+        eqsig.fas2signal(s.fa_spectrum, s.dt, stype=m[1])
+    elif name == 'reset_values':
         s.reset_values(m[1])
     elif name == 'add_constant':
         s.add_constant(m[1])
@@ -686,7 +738,7 @@ def rel_history(ctx, eqsig, p):
         for m in p['mutators']:
             try:
                 with np.errstate(all='ignore'):
-                    _apply_mutator(s, m)
+                    _apply_mutator(eqsig, s, m)
             except Exception as e:
                 ctx.observe('history: mutator %s raised %s (counted, not judged here)' % (m[0], type(e).__name__))
         for what in p['reads_after']:
@@ -698,7 +750,7 @@ def rel_history(ctx, eqsig, p):
 def _draw_history(rng, h, tier):
     clsname, kind = HISTORY_COMBOS[h % len(HISTORY_COMBOS)]
     kinds = [kind]
-    pool = SIGNAL_MUTATORS + (ACC_MUTATORS if clsname == 'AccSignal' else [])
+    pool = SIGNAL_MUTATORS + (ACC_MUTATORS if clsname == 'AccSignal' else []) + INVERSE_STEPS
     if rng.random() < 0.4:
         kinds.append(pool[int(rng.integers(len(pool)))])
     need_long = any(k in LONG_ONLY for k in kinds)
@@ -709,6 +761,10 @@ def _draw_history(rng, h, tier):
     x = np.zeros(npts)
     while not np.any(x != 0):
         x, rcls = gen.record(rng, npts)
+    interaction = any(k in INVERSE_STEPS for k in kinds)
+    if interaction:                                     # clearly non-zero mean: bin 0 of the spectrum carries weight
+        x = x + float(rng.choice([-1.0, 1.0])) * float(rng.integers(1, 4)) * float(np.max(np.abs(x)))
+        rcls += '+offset'
     cont = 'f64'
     if np.all(x == np.round(x)) and rng.random() < 0.3:
         xin, cont = x.astype(np.int64), 'i64'         # in-place corrections raise on these: counted, read-after still judged
@@ -732,7 +788,7 @@ def _draw_history(rng, h, tier):
     if rng.random() < 0.5:
         after.insert(int(rng.integers(len(after) + 1)), 'max_fa_period')
     g = None
-    r = rng.random()
+    r = rng.random() * (0.5 if interaction else 1.0)      # interaction steps: half of them after an explicit generation
     if r < 0.2:
         g = {'p2_plus': int(rng.integers(0, 4)), 'n': None}
     elif r < 0.3:
@@ -854,7 +910,7 @@ def run_shard(ctx):
                 ctx.exception('trailing-zeros', dict(q, fn='rel.trailing_zeros'), e)
     ctx.exhaustive['record_lengths_2..130_and_pow2+-1_cases'] = n_enum
     # -- object histories: read -> mutate through the public API -> read again --------------------------------------
-    n_hist = 560 if quick else 3500
+    n_hist = 656 if quick else 4100
     for h in core.split_range(n_hist, ctx.shard, ctx.nshards):
         if ctx.out_of_time():
             ctx.observe('stopped by the safety-net budget')
